@@ -15,6 +15,7 @@ import os
 
 import env
 import resp
+import xmlsec_core
 from core import Exn, cstr, cbool, clist
 from saml2_tophat import md, sigver, saml, samlp, class_name, BINDING_HTTP_POST
 from saml2_tophat.config import IdPConfig
@@ -189,8 +190,16 @@ def _msg(issuer, keyname, rid, subject="subject-1", given="Anna", irt="req-1"):
                                                "not_on_or_after": env.ts(env.NOW + 300), "not_before": None, "address": None}])]))
 
 
+def _post(sp, xml, outstanding):
+    """the SP's public entry point with the caller's OWN long-lived outstanding-query table (not a copy)"""
+    return sp.parse_authn_request_response(base64.b64encode(xml.encode("utf-8")).decode("ascii"), BINDING_HTTP_POST, outstanding)
+
+
 def _accepted(sp, xml, outstanding=None):
-    r = _call(lambda: resp.post(sp, xml, outstanding=outstanding))
+    if outstanding is None:
+        r = _call(lambda: resp.post(sp, xml))
+    else:
+        r = _call(lambda: _post(sp, xml, outstanding))
     if isinstance(r, Exn) or r is None:
         return None
     return [r.name_id.text if r.name_id is not None else None, sorted((k, sorted(v)) for k, v in (r.ava or {}).items())]
@@ -398,7 +407,8 @@ def unit_sp_history(ctx, MODES, work):
     env.tool_inprocess(True)
     total = 0
     with env.Clock(env.NOW):
-        sp = env.make_sp(sp={"want_response_signed": True, "want_assertions_signed": True})
+        sps = [("both", env.make_sp(sp={"want_response_signed": True, "want_assertions_signed": True})),
+               ("either", env.make_sp(sp={"want_assertions_or_response_signed": True}))]
         sp_enc = env.make_sp()
         idp = env.make_idp()
         authn = {"class_ref": resp.PASSWORD, "authn_auth": "x"}
@@ -414,7 +424,6 @@ def unit_sp_history(ctx, MODES, work):
         unsigned = resp.build(resp.default_response(id="r-h4", in_response_to="req-3", assertions=[
             resp.default_assertion(id="a-r-h4", name_id="subject-h4", attributes={"urn:oid:2.5.4.42": ["Nina"]})]))
         good5 = signed_both("r-h5", "subject-h5", "Greta", "req-5")
-        outstanding = {"req-1": "/one", "req-2": "/two", "req-3": "/three", "req-5": "/five"}
 
         def enc_for(user, given):
             return str(idp.create_authn_response({"givenName": [given]}, in_response_to="req-1", destination=env.SP_ACS_POST,
@@ -422,40 +431,43 @@ def unit_sp_history(ctx, MODES, work):
         for mode in MODES:
             for pos in ("first", "second", "every"):
                 sched = {"first": {"0": mode}, "second": {"1": mode}, "every": {"*": mode}}[pos]
+                for spname, sp in sps:
+                    label = "%s:%s:%s" % (spname, mode, pos)
+                    rp = {"unit": "sp_history", "sp": spname, "mode": mode, "pos": pos}
+                    outstanding = {"req-1": "/one", "req-2": "/two", "req-3": "/three", "req-5": "/five"}
+                    a1 = _accepted(sp, good1, outstanding)
+                    st0 = _sp_state(sp)
+                    out0 = dict(outstanding)
+                    with Faults(work, sched):
+                        av = _call(lambda: _post(sp, victim, outstanding))
+                        faulted = any(e["mode"] for e in xmlsec_core.FakePopen.log)
+                    total += 1
+                    failed = isinstance(av, Exn) or av is None
+                    ctx.nontriv(("sp_history", label))
+                    ctx.count("sp_history:%s" % ("failed-call" if failed else "call-succeeded"))
+                    if not a1:
+                        ctx.oracle_fail("good-response-refused-after-failures:" + label, "a valid response is refused on the long-lived SP", rp)
+                    if failed:
+                        st1 = _sp_state(sp)
+                        if st1 != st0:
+                            ctx.oracle_fail("failed-verify-left-session:" + label,
+                                            "session cache changed by a response whose verification failed: %s -> %s" % (st0, st1), rp)
+                        if outstanding != out0:
+                            ctx.oracle_fail("failed-verify-changed-outstanding:" + label, "outstanding-query table changed by a failed call", rp)
+                    elif faulted and pos == "every":
+                        ctx.oracle_fail("history:accepted-with-every-invocation-failing:" + label, "response accepted although every tool run failed", rp)
+                    # next calls, no fault
+                    for name, m in (("forged", forged), ("unsigned", unsigned)):
+                        acc = _accepted(sp, m, outstanding)
+                        if acc:
+                            ctx.oracle_fail("after-failed-call-accepted:%s:%s" % (name, label),
+                                            "after a failed call the SP accepted a %s response: %s" % (name, acc), rp)
+                    a5 = _accepted(sp, good5, outstanding)
+                    if not a5 or a5[0] != "subject-h5" or a5[1] != [("givenName", ["Greta"])] and a5[1] != [("urn:oid:2.5.4.42", ["Greta"])]:
+                        ctx.oracle_fail("after-failed-call-wrong-identity:" + label,
+                                        "the valid response after a failed call yields %s (expected subject-h5 / Greta)" % (a5,), rp)
                 label = "%s:%s" % (mode, pos)
                 rp = {"unit": "sp_history", "mode": mode, "pos": pos}
-                a1 = _accepted(sp, good1, outstanding)
-                st0 = _sp_state(sp)
-                out0 = dict(outstanding)
-                with Faults(work, sched):
-                    av = _call(lambda: resp.post(sp, victim, outstanding=outstanding))
-                    import xmlsec_core
-                    faulted = any(e["mode"] for e in xmlsec_core.FakePopen.log)
-                total += 1
-                failed = isinstance(av, Exn) or av is None
-                ctx.nontriv(("sp_history", label))
-                ctx.count("sp_history:%s" % ("failed-call" if failed else "call-succeeded"))
-                if not a1:
-                    ctx.oracle_fail("good-response-refused-after-failures:" + label, "a valid response is refused on the long-lived SP", rp)
-                if failed:
-                    st1 = _sp_state(sp)
-                    if st1 != st0:
-                        ctx.oracle_fail("failed-verify-left-session:" + label,
-                                        "session cache changed by a response whose verification failed: %s -> %s" % (st0, st1), rp)
-                    if outstanding != out0:
-                        ctx.oracle_fail("failed-verify-changed-outstanding:" + label, "outstanding-query table changed by a failed call", rp)
-                elif faulted and pos == "every":
-                    ctx.oracle_fail("history:accepted-with-every-invocation-failing:" + label, "response accepted although every tool run failed", rp)
-                # next calls, no fault
-                for name, m in (("forged", forged), ("unsigned", unsigned)):
-                    acc = _accepted(sp, m, outstanding)
-                    if acc:
-                        ctx.oracle_fail("after-failed-call-accepted:%s:%s" % (name, label),
-                                        "after a failed call the SP accepted a %s response: %s" % (name, acc), rp)
-                a5 = _accepted(sp, good5, outstanding)
-                if not a5 or a5[0] != "subject-h5" or a5[1] != [("givenName", ["Greta"])] and a5[1] != [("urn:oid:2.5.4.42", ["Greta"])]:
-                    ctx.oracle_fail("after-failed-call-wrong-identity:" + label,
-                                    "the valid response after a failed call yields %s (expected subject-h5 / Greta)" % (a5,), rp)
                 # decryption: failed decryption of Mallory's response, then Greta's: the identity must be Greta's own
                 e_v, e_g = enc_for("mallory", "Mallory"), enc_for("greta", "Greta")
                 with Faults(work, sched, only_cmd="decrypt"):
